@@ -100,6 +100,9 @@ def rextra(rng):
         return ""
     if r < 0.7:
         return "00" * 9
+    if r > 0.97:
+        # long trailing data (a future format revision, or a foreign writer's padding)
+        return rng.randbytes(rng.choice([255, 256, 257, 4096, 16384 - 27, 16384, 65536])).hex()
     return bytes(rng.randrange(256) for _ in range(rng.randrange(1, 65))).hex()
 
 
@@ -121,7 +124,7 @@ def rwave_n(rng, big=False):
     if r < 0.4:
         return 1024
     if big and r > 0.9:
-        return rng.choice([5461, 16384, 16385, 100000])
+        return rng.choice([5461, 16384, 16385, 100000, 255, 256, 257, 4095, 4096, 8187, 16379, 32768, 65535, 65536, 65537])
     return rng.randrange(0, 200)
 
 
@@ -133,7 +136,7 @@ def v2_track_data(rng, with_extra=True):
 
 
 def v2_grid(rng, big=False):
-    n = rcount(rng, 12, [64, 5000, 32768, 32769, 40000] if big else None)
+    n = rcount(rng, 12, [64, 5000, 32768, 32769, 40000, 127, 128, 255, 256, 257, 1023, 1024, 4096, 16384, 32767] if big else None)
     return [[rdouble(rng), rint64(rng), rint32(rng), rint32(rng)] for _ in range(n)]
 
 
@@ -180,7 +183,7 @@ def v1_valid_grid(rng, big=False):
         return []
     n = 2 if r < 0.5 else rng.randrange(2, 14)
     if big and r > 0.95:
-        n = rng.choice([64, 5000, 32768])
+        n = rng.choice([64, 5000, 32768, 127, 128, 255, 256, 257, 1024, 4096, 16384, 32767])
     idx = rng.choice([-4, 0, -100, 7, rng.randrange(-10 ** 6, 10 ** 6), 2 ** 30, -2 ** 30, 2 ** 31 - 70000, -2 ** 31])
     off = rng.uniform(-1e6, 1e6)
     g = []
